@@ -61,16 +61,9 @@ def parseCand (s : String) : Option Cand :=
     pure ⟨← id.toNat?, ps, ← nd.toNat?⟩
   | _ => none
 
-/-- ascending insertion sort of candidate ids (the harness prints ambiguous ids sorted) -/
-def insertSorted (x : Nat) : List Nat → List Nat
-  | [] => [x]
-  | y :: ys => if x ≤ y then x :: y :: ys else y :: insertSorted x ys
-
-def sortIds (l : List Nat) : List Nat := l.foldr insertSorted []
-
 def showOutcome : Outcome → String
   | .selected id => "sel " ++ toString id
-  | .ambiguous ids => "amb " ++ ",".intercalate ((sortIds ids).map toString)
+  | .ambiguous ids => "amb " ++ ",".intercalate (ids.map toString)
   | .unmatched => "none"
   | .panic => "panic"
 
@@ -91,7 +84,11 @@ def convCell (src dst : ETy) : String :=
 def handleResolve (cs az : String) : String :=
   match sequenceOpt ((if cs.isEmpty then [] else cs.splitOn ";").map parseCand),
         sequenceOpt ((if az.isEmpty then [] else az.splitOn ",").map parseETy) with
-  | some cands, some a => showOutcome (resolve cands a)
+  | some cands, some a =>
+    -- the literal transcription answers; `resolve` (what the theorems are about) must agree (Thm.C16.resolveLazy_eq_resolve)
+    let o := resolveLazy cands a
+    if o == resolve cands a then showOutcome o.normalize else "model-internal-mismatch"
+
   | _, _ => "bad-request"
 
 def handle (op : String) (args : List String) : String :=
